@@ -485,7 +485,10 @@ where
                     Ok(connection) => {
                         Poll::Ready(Ok(register_connected(this.pool, *this.token, connection)))
                     }
-                    Err(e) => Poll::Ready(Err(e)),
+                    Err(e) => {
+                        release_attempt(this.pool, *this.token, this.owns_connecting);
+                        Poll::Ready(Err(e))
+                    }
                 }
             }
             CheckoutConnectingProj::ConnectingWithDelayDrop(Some(connector))
@@ -516,7 +519,10 @@ where
                     Ok(connection) => {
                         Poll::Ready(Ok(register_connected(this.pool, *this.token, connection)))
                     }
-                    Err(e) => Poll::Ready(Err(e)),
+                    Err(e) => {
+                        release_attempt(this.pool, *this.token, this.owns_connecting);
+                        Poll::Ready(Err(e))
+                    }
                 }
             }
             CheckoutConnectingProj::ConnectingWithDelayDrop(None) => {
@@ -552,6 +558,21 @@ where
 }
 
 /// Register a connection with the pool referenced here.
+/// The connection attempt owned by a checkout has failed: clear the in-flight marker now, so
+/// that checkouts waiting on the attempt are released when the failure is reported and not
+/// only when the finished future is eventually dropped.
+fn release_attempt<C, B>(poolref: &PoolRef<C, B>, token: Token, owns_connecting: &mut bool)
+where
+    C: PoolableConnection<B>,
+    B: Send + 'static,
+{
+    if std::mem::take(owns_connecting) {
+        if let Some(mut pool) = poolref.lock() {
+            pool.cancel_connection(token);
+        }
+    }
+}
+
 fn register_connected<C, B>(
     poolref: &PoolRef<C, B>,
     token: Token,
